@@ -159,6 +159,58 @@ fn c17_without_interrupts_nesting() {
     kani::cover!(!n1);
 }
 
+/// thorough tier: one more nesting level (depth 4), every branching shape
+#[kani::proof]
+fn c17t_without_interrupts_nesting_depth4() {
+    let before = havoc();
+    let (n1, n2, n3): (bool, bool, bool) = (kani::any(), kani::any(), kani::any());
+    let v: [u64; 4] = kani::any();
+    let mut calls = [0u32; 4];
+    let mut saw_set = false;
+    let mut probe = |lvl: usize, calls: &mut [u32; 4], saw: &mut bool| {
+        calls[lvl] += 1;
+        if m().rflags & IF != 0 {
+            *saw = true;
+        }
+    };
+    let r = interrupts::without_interrupts(|| {
+        probe(0, &mut calls, &mut saw_set);
+        if n1 {
+            let r1 = interrupts::without_interrupts(|| {
+                probe(1, &mut calls, &mut saw_set);
+                if n2 {
+                    let r2 = interrupts::without_interrupts(|| {
+                        probe(2, &mut calls, &mut saw_set);
+                        if n3 {
+                            let r3 = interrupts::without_interrupts(|| {
+                                probe(3, &mut calls, &mut saw_set);
+                                v[3]
+                            });
+                            vp!(C17, r3 == v[3], "closure result not returned unchanged (depth 4)");
+                            probe(2, &mut calls, &mut saw_set);
+                        }
+                        v[2]
+                    });
+                    vp!(C17, r2 == v[2], "closure result not returned unchanged (depth 3)");
+                    probe(1, &mut calls, &mut saw_set);
+                }
+                v[1]
+            });
+            vp!(C17, r1 == v[1], "closure result not returned unchanged (depth 2)");
+            probe(0, &mut calls, &mut saw_set);
+        }
+        v[0]
+    });
+    vp!(C17, r == v[0], "closure result not returned unchanged");
+    vp!(C17, !saw_set, "a closure ran (or continued) with the interrupt flag set");
+    vp!(C17, m().rflags == before.rflags && m().arch_eq(&before) && m().clean(), "interrupt flag not restored / other machine state changed");
+    vp!(C17, calls[3] == (n1 && n2 && n3) as u32, "innermost closure did not run exactly once");
+    if before.rflags & IF == 0 {
+        vp!(C17, m().count(EV_STI) == 0 && m().count(EV_CLI) == 0, "cli/sti executed although interrupts were disabled before the call");
+    }
+    kani::cover!(n1 && n2 && n3 && before.rflags & IF != 0);
+}
+
 #[kani::proof]
 fn c17_enable_and_hlt_atomic() {
     let before = havoc();
